@@ -125,3 +125,21 @@ Proof.
   destruct (add_both norm_tag norm_tag_idempotent (split comma (to_lower values)) nil_slice (inv_nil norm_tag)) as [Hv _].
   rewrite Hv. reflexivity.
 Qed.
+
+(* ---------- CIDRList.UnmarshalJSON: a JSON array of texts is taken as it is; else a JSON text goes through Set; else the
+   error of the second attempt, the list untouched.  json.Unmarshal into a list of texts / into a text are unknown
+   functions of the body: here what the body is ([cidr_json], or neither). ---------- *)
+Definition as_list_of (j : option cidr_json) (_ : string) : list string * option string :=
+  match j with Some (CArr es) => (es, None) | _ => ([], Some "cannot unmarshal into a list of strings") end.
+Definition as_string_of (j : option cidr_json) (_ : string) : string * option string :=
+  match j with Some (CStr s) => (s, None) | _ => (""%string, Some "cannot unmarshal into a string") end.
+Lemma src_cidr_unmarshal (j : option cidr_json) (c : list string) (body : string) :
+  V2.CIDRList_UnmarshalJSON (as_list_of j) (as_string_of j) c body
+  = match j with
+    | Some jj => (cidr_unmarshal jj, None)
+    | None => (c, Some "cannot unmarshal into a string")
+    end.
+Proof.
+  unfold V2.CIDRList_UnmarshalJSON. cbv zeta. destruct j as [[es|s]|]; cbn [as_list_of as_string_of go_err_isnil cidr_unmarshal]; try reflexivity.
+  rewrite src_cidr_set. reflexivity.
+Qed.
